@@ -45,8 +45,8 @@ func C01(r *Run) *core.Report {
 	// T5: premises - the map-operation contract the tables are evaluated against, and the integrity of
 	// entries across resize / Clear ("an unexpired value is never dropped by ... internal table resizing")
 	n := borrow(rep, C11(r), "C01.T5", "C11.L1", "C11.L2", "C11.L3", "C11.L6")
-	n += borrow(rep, mapProtocol(r, "C03", 0), "C01.T5", "C03.P3", "C03.P4", "C03.P6", "C03.P8", "C03.P10", "C03.P12")
-	n += borrow(rep, mapProtocol(r, "C04", 1), "C01.T5", "C04.P3", "C04.P4", "C04.P6", "C04.P8", "C04.P10", "C04.P12")
+	n += borrow(rep, mapProtocol(r, "C03", 0), "C01.T5", "C03.P3", "C03.P4", "C03.P6", "C03.P8", "C03.P10", "C03.P12", "C03.P14")
+	n += borrow(rep, mapProtocol(r, "C04", 1), "C01.T5", "C04.P3", "C04.P4", "C04.P6", "C04.P8", "C04.P10", "C04.P12", "C04.P14")
 	rep.MinCount("C01.T5", "premise obligations (map contract, resize integrity)", n, 60)
 	return rep
 }
